@@ -318,11 +318,14 @@ theorem RI.mDel {s : State} (h : RI s) (r arg : String) (hresp : ∀ ds, RT ⟨.
   have h0 := h.touch r
   split
   · exact h0
-  · apply RI.indexRemove
-    repeat' split
-    all_goals first
-      | exact h0
-      | exact h0.referrerDelete _ _ _ hresp
+  · split
+    · -- a referrers response addressed by digest is refused: nothing but the touch happened
+      exact h0
+    · apply RI.indexRemove
+      repeat' split
+      all_goals first
+        | exact h0
+        | exact h0.referrerDelete _ _ _ hresp
 
 theorem RI.setBlobs {s : State} (h : RI s) (r : String) (bl : List (Dig × String)) (ol : List Dig) :
     RI (s.setRepo { s.repo r with blobs := bl, old := ol }) := by
